@@ -23,7 +23,8 @@ struct Rec<S> {
 }
 impl<S> Clone for Rec<S> {
     fn clone(&self) -> Self {
-        Rec { id: self.next_id.fetch_add(1, Ordering::SeqCst), next_id: self.next_id.clone(), counter: 0, log: self.log.clone(), make: self.make }
+        // a clone is a new instance (new id) that carries the state of the original (its call counter), like any stateful conditional
+        Rec { id: self.next_id.fetch_add(1, Ordering::SeqCst), next_id: self.next_id.clone(), counter: self.counter, log: self.log.clone(), make: self.make }
     }
 }
 impl<S: Clone> Conditional<S> for Rec<S> {
@@ -158,6 +159,93 @@ fn sweep_checks(ctx: &Ctx) {
                 check_log(ctx, "f64", &relocated, &lg, 1, chain.current_state(), &case);
                 ctx.evals(1);
                 ctx.transitions(2);
+            }
+            // histories in which the public current_state is replaced by a state of ANOTHER length between two sweeps
+            // (append a latent coordinate / drop one): the sweep covers every coordinate of the chain's CURRENT state
+            if steps == 1 {
+                for d2 in [d + 1, d + 3, 2 * d, d.saturating_sub(1), d / 2] {
+                    if d2 == 0 || d2 == d {
+                        continue;
+                    }
+                    let init: Vec<f64> = (0..d).map(|k| k as f64).collect();
+                    let case = json!({"kind": "sweep", "ty": "f64", "d": d, "history": format!("step; assign a current_state of length {d2}; step")});
+                    let rec = new_rec::<f64>(mk_f64);
+                    let log = rec.log.clone();
+                    let relocated: Vec<f64> = (0..d2).map(|k| -10.0 - k as f64).collect();
+                    let r = catch(|| {
+                        let mut chain = GibbsMarkovChain::new(rec, &init);
+                        chain.step();
+                        let n1 = log.lock().unwrap().get(&0).map(|l| l.len()).unwrap_or(0);
+                        chain.current_state = relocated.clone();
+                        chain.step();
+                        (n1, chain.current_state().clone())
+                    });
+                    ctx.evals(1);
+                    ctx.transitions(2);
+                    match r {
+                        Err(m) => ctx.violation(Violation::new("C05:panic", format!("step panicked after current_state was replaced by a state of length {d2} (chain built with length {d}): {m}"), case)),
+                        Ok((n1, cur)) => {
+                            let lg: Vec<(usize, Vec<f64>, f64)> = log.lock().unwrap().get(&0).cloned().unwrap_or_default()[n1..].to_vec();
+                            check_log(ctx, "f64", &relocated, &lg, 1, &cur, &case);
+                            ctx.outcome("length-change-history-checked", 1);
+                        }
+                    }
+                }
+            }
+            // two consecutive runs of one sampler: the conditional a chain asks in the second run is the chain's own,
+            // carrying whatever state it accumulated in the first run (Conditional::sample takes &mut self)
+            if steps <= 2 && (d <= 8 || d % 16 == 0) {
+                for n_chains in 1..=3usize {
+                    for second_progress in [false, true] {
+                        if second_progress && d > 4 {
+                            continue;
+                        }
+                        // (run_progress computes split diagnostics, which need >= 4 draws)
+                        let (k1, k2) = (steps, if second_progress { 4 } else { 3 - steps });
+                        let inits: Vec<Vec<f64>> = (0..n_chains).map(|c| (0..d).map(|k| (c * 100 + k) as f64).collect()).collect();
+                        let case = json!({"kind": "sweep", "ty": "f64", "d": d, "chains": n_chains, "history": format!("run({k1},0); {}({k2},0)", if second_progress { "run_progress" } else { "run" })});
+                        let rec = new_rec::<f64>(mk_f64);
+                        let log = rec.log.clone();
+                        let r = catch(|| {
+                            let mut s = GibbsSampler::new(rec, inits.clone()).set_seed(5 + d as u64);
+                            s.run(k1, 0).map_err(|e| e.to_string())?;
+                            let ids1: Vec<u64> = s.chains.iter().map(|c| c.target.id).collect();
+                            let cur1: Vec<Vec<f64>> = s.chains.iter().map(|c| c.current_state.clone()).collect();
+                            if second_progress {
+                                s.run_progress(k2, 0).map_err(|e| e.to_string())?;
+                            } else {
+                                s.run(k2, 0).map_err(|e| e.to_string())?;
+                            }
+                            let ids2: Vec<u64> = s.chains.iter().map(|c| c.target.id).collect();
+                            let counters2: Vec<u64> = s.chains.iter().map(|c| c.target.counter).collect();
+                            let cur2: Vec<Vec<f64>> = s.chains.iter().map(|c| c.current_state.clone()).collect();
+                            Ok::<_, String>((ids1, cur1, ids2, counters2, cur2))
+                        });
+                        ctx.evals(1);
+                        ctx.transitions(((k1 + k2) * n_chains) as u64);
+                        match r {
+                            Err(m) => ctx.violation(Violation::new("C05:panic", format!("two consecutive runs panicked: {m}"), case)),
+                            Ok(Err(m)) => ctx.violation(Violation::new("C05:run-error", format!("run failed: {m}"), case)),
+                            Ok(Ok((ids1, cur1, ids2, counters2, cur2))) => {
+                                let g = log.lock().unwrap();
+                                for c in 0..n_chains {
+                                    if counters2[c] != ((k1 + k2) * d) as u64 {
+                                        ctx.violation(Violation::new(
+                                            "C05:conditional-state-lost-between-runs",
+                                            format!("chain {c}: after run({k1}) and a second run of {k2} sweep(s) on {d} coordinates the chain's conditional has counted {} calls, not {}: the second run did not ask the chain's own conditional as left by the first run", counters2[c], (k1 + k2) * d),
+                                            case.clone(),
+                                        ));
+                                        continue;
+                                    }
+                                    let all = g.get(&ids2[c]).cloned().unwrap_or_default();
+                                    let lg: Vec<(usize, Vec<f64>, f64)> = if ids2[c] == ids1[c] { all[(k1 * d).min(all.len())..].to_vec() } else { all };
+                                    check_log(ctx, "f64", &cur1[c], &lg, k2, &cur2[c], &case);
+                                }
+                                ctx.outcome("two-run-history-checked", 1);
+                            }
+                        }
+                    }
+                }
             }
             // f32 and i32 states
             {
@@ -444,7 +532,7 @@ fn kernel_checks(ctx: &Ctx) {
 }
 
 pub fn run(ctx: &Ctx) {
-    ctx.rule("(a) recording conditional (logs index + a copy of `given`, returns a fresh unique value) for EVERY dimension 1..64, 1..3 steps, initial states {zeros, ramp, NaN-containing, -0/inf} (f64), f32, i32, and 2..4 chains through GibbsSampler::run, against a list model; (a') fault points: the conditional panics at its k-th call for every k < 2d, d <= 8 (16), the caller recovers and the chain must hold exactly the partially refreshed state; (b) explicit-state: for finite joints (all 255 weight tables over {0..3} on {0,1}^2; structured tables incl. zeros and a diagonal-heavy one on larger spaces) the exact kernel P is built by enumerating EVERY outcome sequence of one real sweep from every positive-probability state, then pi P = pi to 1e-12. states = start states x tables (+ sweep configurations); transitions = sweeps executed");
+    ctx.rule("(a) recording conditional (logs index + a copy of `given`, returns a fresh unique value) for EVERY dimension 1..64, 1..3 steps, initial states {zeros, ramp, NaN-containing, -0/inf} (f64), f32, i32, and 2..4 chains through GibbsSampler::run, against a list model; histories: the public current_state re-assigned (same length, longer, shorter) between two sweeps; two consecutive runs (run;run and run;run_progress) in which the recording conditional's own call counter must continue; (a') fault points: the conditional panics at its k-th call for every k < 2d, d <= 8 (16), the caller recovers and the chain must hold exactly the partially refreshed state; (b) explicit-state: for finite joints (all 255 weight tables over {0..3} on {0,1}^2; structured tables incl. zeros and a diagonal-heavy one on larger spaces) the exact kernel P is built by enumerating EVERY outcome sequence of one real sweep from every positive-probability state, then pi P = pi to 1e-12. states = start states x tables (+ sweep configurations); transitions = sweeps executed");
     sweep_checks(ctx);
     fault_points(ctx);
     kernel_checks(ctx);
